@@ -112,6 +112,7 @@ type srvWorld struct {
 	reregLeft int
 	extraRegLeft int
 	yieldsOff atomic.Bool
+	closing   atomic.Bool
 	trailingHandled int
 }
 
@@ -179,15 +180,17 @@ func (w *srvWorld) handler(hname string) diam.HandlerFunc {
 		} else {
 			w.unknownEnter++
 		}
+		if w.closing.Load() {
+			pl.park = false
+		}
 		if pl.park {
 			w.parked = append(w.parked, inv)
+			e.ParkBegin(true)
 		}
 		w.mu.Unlock()
 		e.Poke()
 		if pl.park {
-			e.ParkBegin(true)
-			<-inv.rel
-			e.ParkEnd(true)
+			<-inv.rel // accounted under w.mu above; un-accounted by the releaser
 		}
 		if pl.answer {
 			a := m.Answer(pl.rc)
@@ -688,6 +691,7 @@ func (w *srvWorld) release(inv *invocation) {
 	}
 	w.mu.Unlock()
 	w.e.Act("release", "c%d/m%d", inv.conn, inv.seq)
+	w.e.ParkEnd(true)
 	inv.rel <- "go"
 }
 
@@ -973,38 +977,33 @@ func (w *srvWorld) drain() {
 func (w *srvWorld) teardown() {
 	e := w.e
 	w.yieldsOff.Store(true)
-	w.mu.Lock()
-	yl := append([]*yieldPark{}, w.yielded...)
-	w.yielded = nil
-	parked := append([]*invocation{}, w.parked...)
-	w.parked = nil
-	w.mu.Unlock()
-	for _, yp := range yl {
-		close(yp.ch)
-	}
-	for _, inv := range parked {
-		select {
-		case inv.rel <- "go":
-		default:
-			go func(inv *invocation) { inv.rel <- "go" }(inv)
-		}
-	}
+	w.closing.Store(true)
 	for _, pc := range w.conns {
 		if pc.connected {
 			pc.sc.EndRead(io.EOF, false)
 		}
 	}
 	w.lis.Close()
-	e.Quiesce()
-	// a second round for handlers that parked during teardown
-	w.mu.Lock()
-	parked = append([]*invocation{}, w.parked...)
-	w.parked = nil
-	w.mu.Unlock()
-	for _, inv := range parked {
-		go func(inv *invocation) { inv.rel <- "go" }(inv)
+	for round := 0; round < 20; round++ {
+		w.mu.Lock()
+		yl := append([]*yieldPark{}, w.yielded...)
+		w.yielded = nil
+		parked := append([]*invocation{}, w.parked...)
+		w.parked = nil
+		w.mu.Unlock()
+		for _, yp := range yl {
+			e.ParkEnd(true)
+			close(yp.ch)
+		}
+		for _, inv := range parked {
+			e.ParkEnd(true)
+			inv.rel <- "go"
+		}
+		e.Quiesce()
+		if len(yl) == 0 && len(parked) == 0 {
+			break
+		}
 	}
-	e.Quiesce()
 }
 
 // finalChecks: exactly-once handling, answers, isolation, mirroring.
@@ -1291,13 +1290,12 @@ func (w *srvWorld) installYields() {
 		if park {
 			yp = &yieldPark{site: site, ch: make(chan struct{})}
 			w.yielded = append(w.yielded, yp)
+			w.e.ParkBegin(true)
 		}
 		w.mu.Unlock()
 		if park {
 			w.e.Probe("yield-parked")
-			w.e.ParkBegin(true)
 			<-yp.ch
-			w.e.ParkEnd(true)
 		}
 	}
 }
@@ -1312,6 +1310,7 @@ func (w *srvWorld) unyield(yp *yieldPark) {
 	}
 	w.mu.Unlock()
 	w.e.Act("unyield", "%s", yp.site)
+	w.e.ParkEnd(true)
 	close(yp.ch)
 }
 
